@@ -248,6 +248,38 @@ def interleaved():
     return cases
 
 
+def apifail_cases():
+    """ORACLE-ONLY scripts (Model_Session has no event for a failing API helper: which of the many calls into
+    reactor.processes fails decides where the implementation stops; the traces are judged by the property oracle):
+    the neighbor subscribes to fsm, neighbor-changes, negotiated and every receive-/send- message event, and the
+    recording Processes raises ProcessError ONCE at a chosen callback - while the session is being set up, and
+    during every kind of teardown in every connected state."""
+    cases = []
+    enders = {
+        'RO': [['recv', 'HeaderBadMarker'], ['recv', 'OpenBadVersion'], ['recv', 'OpenBadAs'], ['recv', 'Keepalive'], ['recv', 'Notification'],
+               ['silence', 70], ['eof', None], ['teardown', 4], ['incoming', None], ['remove', None]],
+        'RK': [['recv', 'HeaderShortLen'], ['recv', 'UpdateOk'], ['recv', 'Notification'], ['silence', 200], ['eof', None], ['teardown', 4],
+               ['incoming', None], ['recv', 'Keepalive']],
+        'MN': [['recv', 'UnknownType'], ['recv', 'UpdateBadNlri'], ['recv', 'OpenBadVersion'], ['recv', 'Notification'], ['silence', 200],
+               ['eof', None], ['sockerr', None], ['teardown', 4], ['reestablish', None], ['remove', None], ['recv', 'UpdateOk'], ['refresh', None]],
+        'Wacc': [['tick', 0.3]],
+        'CN': [['connect_ok', None], ['connect_fail', None], ['incoming', None]],
+    }
+    for pname, stims in enders.items():
+        for stim in stims:
+            for cb in ('fsm_idle', 'fsm', 'down', 'up', 'connected', 'message'):
+                steps = [list(x) for x in PREFIX[pname]] + [['apifail', cb], list(stim)] + CONT + [['recv', 'UpdateOk'], ['tick', 1.0]]
+                cases.append({'name': f'apifail:{pname}:{stim[0]}:{stim[1]}:{cb}', 'api': True, 'oracle_only': True, 'steps': steps})
+    # the failure while the session is being set up
+    for k in range(1, 4):
+        for cb in ('fsm', 'up', 'connected', 'message', 'down'):
+            steps = [list(x) for x in EST[:k - 1]] + [['apifail', cb]] + [list(x) for x in EST[k - 1:]] + [['tick', 1.0]] + CONT
+            cases.append({'name': f'apifail:setup{k}:{cb}', 'api': True, 'oracle_only': True, 'steps': steps})
+    # the same subscriptions without any failure (the events themselves must change nothing)
+    cases.append({'name': 'api-subscriptions-only', 'api': True, 'expect_up': True, 'steps': [list(x) for x in EST] + [['tick', 1.0], ['recv', 'UpdateOk'], ['recv', 'Keepalive'], ['tick', 1.0]]})
+    return cases
+
+
 def random_case(rng, maxlen):
     n = rng.randint(3, maxlen)
     steps = []
@@ -291,7 +323,7 @@ def _worker(case):
     signal.signal(signal.SIGALRM, too_long)
     signal.alarm(120)
     try:
-        res = hpeer.run_script(case['steps'])
+        res = hpeer.run_script(case['steps'], api_subs=bool(case.get('api')))
         return res
     except BaseException as exc:  # a crash of the rig itself is a harness failure, reported as such
         import traceback
@@ -439,6 +471,9 @@ def oracle(log, res, which=('C05', 'C10')):
             if arg == 'Keepalive' and tinfo[owned]['open_rcvd']:
                 tinfo[owned]['ka_rcvd'] = True
         td0, pb0 = td, pb
+        api_failed = [e for e in effs if e[0] == 'api' and e[1] == 'failed']
+        if api_failed:
+            pb0 = True  # the helper was lost in this step: Cease 6/0 (internal error) is a right answer
         left = False
         dropped = []
         notifs = []
@@ -502,8 +537,8 @@ def oracle(log, res, which=('C05', 'C10')):
                     if up:
                         bad.append(('C05:up-twice', 'API up twice without a down in between'))
                     up = True
-                elif e[1] == 'down':
-                    up = False
+                elif e[1] == 'down' or (e[1] == 'failed' and e[2] == 'down'):
+                    up = False  # (a `down` lost with the helper that died: the respawned helper starts from scratch)
         for tid in dropped:
             bad.append((f'C10:partial-read-discarded:{ST_NAME[fsm0]}:{name}',
                         f'the read in progress on transport {tid} was given up after {name} while it held part of a message, and the transport stays open: the rest of the message will be read as a header'))
@@ -521,7 +556,8 @@ def oracle(log, res, which=('C05', 'C10')):
             bad.append((f'C10:notification-answered:{ST_NAME[fsm0]}', f'a received NOTIFICATION was answered with {notifs}'))
         # a session ended by a received message or a timer must be told why
         if (name == 'Recv' and arg not in ('Notification', 'NotificationShort')) or name in ('HoldExpire', 'OpenWaitExpire'):
-            if left and not notifs:
+            # (a session ended by the loss of the API helper is not ended by what was received)
+            if left and not notifs and not api_failed:
                 bad.append((f'C10:reset-without-notification:{ST_NAME[fsm0]}:{evname}', f'{evname} in {ST_NAME[fsm0]} ended the session and nothing was written'))
         # the NOTIFICATION names the error class
         for tid, c, s, stw in notifs:
@@ -757,7 +793,7 @@ def campaign(run: Run, tier, seed, which, cases_override=None):
     maxlen = 12 if tier == 'quick' else 30
     cases += [random_case(rng, maxlen) for _ in range(n_random)]
     if cases_override is None:
-        cases += interleaved()
+        cases += interleaved() + apifail_cases()
     if tier != 'quick' and cases_override is None:
         # small scope: every pair of stimuli after every prefix that reaches OPENSENT or later
         small = [['recv', k] for k in ('OpenOk', 'Keepalive', 'UpdateOk', 'Notification', 'UnknownType', 'OpenBadAs', 'UpdateBadNlri', 'Refresh')] + [
@@ -865,8 +901,10 @@ def campaign(run: Run, tier, seed, which, cases_override=None):
         'observations_not_flagged': dict(notes),
         'oracle_only_scripts': {
             'count': sum(1 for c in cases if c.get('oracle_only')),
-            'why': 'none expected: the interleaved scripts (messages in pieces around the 100 ms read wait with reload / API command / '
-                   'teardown inside the pause; octets arriving in the last 1 ms pause of a torn-down session) are in the correspondence',
+            'why': 'API-helper failures (apifail_cases): the recording Processes raises ProcessError once at a chosen callback (fsm / down / up / '
+                   'connected / per-message events) during set-up and during every kind of teardown; Model_Session has no event for it (where the '
+                   'implementation stops depends on which call fails), these traces are judged by the property oracle only.  The interleaved '
+                   'scripts (split messages, reload, last-pause arrivals) ARE in the correspondence.',
         },
         'spec_checker_failures': {cases[i]['name']: f for i, f in list(spec_bad.items())[:20]},
     })
